@@ -252,6 +252,39 @@ def check(model, rep, tier):
             lam_ok = 'ast.Lambda' in src and all(k in src for k in (
                 'posonlyargs', '.args', 'kwonlyargs', 'vararg', 'kwarg')) and \
                 '.arg' in src
+            # every parameter of every nested lambda is collected: the loop over
+            # the five parameter groups is never left early, and a name is added
+            # whenever the slot is not None
+            hf = r[1]
+            inner = [f for f in ast.walk(hf.node) if isinstance(f, ast.For) and all(
+                k in core.norm(f.iter) for k in ('posonlyargs', 'kwonlyargs', 'vararg', 'kwarg'))]
+            lam_ok = lam_ok and len(inner) == 1
+            if lam_ok:
+              lp = inner[0]
+              tv = core.norm(lp.target)
+              lam_ok = not any(isinstance(x, (ast.Break, ast.Return))
+                               for x in ast.walk(lp))
+              adds = [c for c in ast.walk(lp) if isinstance(c, ast.Call) and isinstance(
+                  c.func, ast.Attribute) and c.func.attr == 'add' and c.args and
+                      core.norm(c.args[0]) == tv + '.arg']
+              lam_ok = lam_ok and len(adds) == 1
+              if lam_ok:
+                par_ = {b: a for a in ast.walk(lp) for b in ast.iter_child_nodes(a)}
+                x = adds[0]
+                while par_.get(x) is not None and par_[x] is not lp:
+                  y = par_[x]
+                  if isinstance(y, ast.If):
+                    inbody = any(x is b or any(x is z for z in ast.walk(b)) for b in y.body)
+                    t = core.norm(y.test)
+                    if not ((inbody and t == '%s is not None' % tv) or
+                            (not inbody and t == '%s is None' % tv)):
+                      lam_ok = False
+                  x = y
+                # a `continue` may only skip the None slots
+                for cnt in [c for c in ast.walk(lp) if isinstance(c, ast.Continue)]:
+                  g = par_.get(cnt)
+                  if not (isinstance(g, ast.If) and core.norm(g.test) == '%s is None' % tv):
+                    lam_ok = False
     rep.check(lam_ok, 'HYG-BIND', '%s:nested-lambda-parameters-reserved' % h.site,
               'lambdas nested in the function get no scope object of their own: '
               'generated calls in their bodies name the enclosing function\'s '
